@@ -48,11 +48,19 @@ def _case(draw):
         k = draw(st.integers(0, 6))
         c['T_surface'], c['T_top'] = draw(tf), draw(tf)
         c['t_points'] = draw(st.lists(tf, min_size=k, max_size=k))
-        c['p_fracs'] = sorted(draw(st.lists(st.floats(0.02, 0.98), min_size=k, max_size=k, unique=True)), reverse=True)
+        inc = draw(st.lists(st.floats(0.05, 1.0), min_size=k + 1, max_size=k + 1))
+        tot = sum(inc)
+        acc, fr = 0.0, []
+        for x in inc[:-1]:
+            acc += x
+            fr.append(0.98 - 0.96 * acc / tot)      # strictly decreasing, at least 0.96*0.05/7 apart
+        c['p_fracs'] = fr
         c['ends'] = draw(st.sampled_from(['default', 'default', 'explicit', 'minus-one']))
         c['smooth'] = draw(st.sampled_from([10, 0, 1, 5, 20, 33, 50, 100, 7.5, 3]))
         c['fault'] = draw(st.sampled_from([None, None, None, 'inverted', 'slope', 'equal-controls']))
         c['limit'] = draw(st.floats(10.0, 5000.0))
+        c['inv_at'] = draw(st.floats(0.0, 0.999))
+        c['inv_equal'] = draw(st.booleans())
     elif kind == 'array':
         k = draw(st.sampled_from([nl, 2, 3, 5, 8]))
         c['T'] = draw(st.lists(tf, min_size=k, max_size=k))
@@ -143,12 +151,17 @@ def check(case):
             Ts, Tt = c['T_surface'], c['T_top']
             ppts = [10.0 ** (lo_p + f * (hi_p - lo_p)) for f in c['p_fracs']]
             fault = c['fault']
-            if fault == 'inverted' and len(ppts) >= 1:
-                if len(ppts) >= 2:
-                    ppts[0], ppts[-1] = ppts[-1], ppts[0]
-                else:
-                    ppts[0] = P[0] * 3.0          # interior node below the surface pressure
+            inv_kw = None
+            if fault == 'inverted':
+                # invert one adjacent pair of pressure nodes, anywhere from the surface to the top
+                full = [float(P[0]) * 1.5] + ppts + [float(P[-1]) / 1.5]
+                j = int(c.get('inv_at', 0.5) * (len(full) - 1)) % (len(full) - 1)
+                full[j + 1] = full[j] * (1.0 if c.get('inv_equal') else 1.7)
+                # keep the rest ordered below the moved node where possible (only this pair is at fault)
+                ppts = full[1:-1]
+                inv_kw = {'P_surface': full[0], 'P_top': full[-1]}
                 expect_reject = True
+                out.cls('inverted-at:%s' % ('top' if j + 1 == len(full) - 1 else ('surface' if j == 0 else 'interior')))
             elif fault == 'equal-controls':
                 Tpts = [Ts] * len(Tpts)
                 Tt = Ts
@@ -157,6 +170,8 @@ def check(case):
                 kw = {'P_surface': float(P[0]) * 1.5, 'P_top': float(P[-1]) / 1.5}
             elif c['ends'] == 'minus-one':
                 kw = {'P_surface': -1, 'P_top': -1}
+            if inv_kw:
+                kw = inv_kw
             limit = 9999999
             if fault == 'slope':
                 nodesP = [kw.get('P_surface', P[0]) if kw.get('P_surface', -1) > 0 else P[0]] + ppts + \
